@@ -9,6 +9,7 @@ import (
 
 	"github.com/256dpi/lungo"
 	"github.com/256dpi/lungo/bsonkit"
+	"github.com/256dpi/lungo/mongokit"
 	"github.com/256dpi/lungo/verifsim/simrt"
 	"go.mongodb.org/mongo-driver/bson"
 	"go.mongodb.org/mongo-driver/bson/primitive"
@@ -278,6 +279,8 @@ func (a *actor) exec(op *Op) *CallRec {
 			}
 			c.Err = e.engine.Commit(txn)
 		})
+	case "e.txn":
+		return a.engineTxn(op)
 	case "s.txn":
 		return a.sessionTxn(op)
 	case "s.with":
@@ -453,6 +456,89 @@ func (a *actor) session(op *Op) (lungo.ISession, func(), error) {
 		return nil, nil, err
 	}
 	return sess, func() { sess.EndSession(context.Background()) }, nil
+}
+
+// engineTxn runs a scripted transaction through the engine-level API: Begin(true), Transaction.* calls (some of
+// which fail), Commit or Abort. A Transaction.* call that reports an error must leave the transaction's working
+// catalog byte-identical (documents, index definitions, index contents, change log): callers at this level are
+// free to go on and commit after a failed step.
+func (a *actor) engineTxn(op *Op) *CallRec {
+	e := a.e
+	return a.call(op, func(c *CallRec) {
+		txn, err := e.engine.Begin(context.Background(), true)
+		if err != nil {
+			c.Err = err
+			return
+		}
+		done := false
+		defer func() {
+			if !done {
+				e.engine.Abort(txn)
+			}
+		}()
+		for i := range op.Items {
+			st := &op.Items[i]
+			h := lungo.Handle{st.DB, st.C}
+			before := catalogDump(txn.Catalog(), true)
+			var serr error
+			single := true
+			switch st.K {
+			case "t.insert":
+				var list bsonkit.List
+				if st.D != nil {
+					list = append(list, bsonkit.MustConvert(st.D.doc()))
+				}
+				for _, d := range st.Docs {
+					list = append(list, bsonkit.MustConvert(d.doc()))
+				}
+				single = len(list) == 1
+				res, err := txn.Insert(h, list, st.Ordered)
+				serr = err
+				if err == nil && res.Error != nil {
+					serr = res.Error
+				}
+			case "t.update":
+				limit := 0
+				if !st.After {
+					limit = 1
+				}
+				single = limit == 1
+				res, err := txn.Update(h, bsonkit.MustConvert(nonNil(st.F.doc())), nil, bsonkit.MustConvert(st.U.doc()), 0, limit, st.Upsert, nil)
+				serr = err
+				if err == nil && res.Error != nil {
+					serr = res.Error
+				}
+				single = true // an update call is all-or-nothing whatever its limit
+			case "t.delete":
+				_, serr = txn.Delete(h, bsonkit.MustConvert(nonNil(st.F.doc())), nil, 0, st.Limit)
+			case "t.createIndex":
+				cfg := mongokit.IndexConfig{Key: bsonkit.MustConvert(st.D.doc()), Unique: st.Unique}
+				if st.P != nil {
+					cfg.Partial = bsonkit.MustConvert(st.P.doc())
+				}
+				_, serr = txn.CreateIndex(h, st.Name, cfg)
+			case "t.dropIndex":
+				serr = txn.DropIndex(h, st.Name)
+			case "t.drop":
+				serr = txn.Drop(h)
+			}
+			e.logf("[%s]   step %s -> %s", a.t.Name, opStr(st), classifyErr(serr))
+			if serr != nil {
+				e.probe("engine-txn-step-failed:" + st.K)
+				if after := catalogDump(txn.Catalog(), true); single && after != before {
+					e.violate(violation("C02", "failed-write-left-trace", "engine-transaction:"+st.K, fmt.Sprintf("inside an engine-level transaction %s failed with %v but changed the transaction's catalog:\n--- before\n%s--- after\n%s", opStr(st), serr, clip(before), clip(after))))
+					return
+				}
+			}
+		}
+		done = true
+		if op.End == "abort" {
+			e.engine.Abort(txn)
+			return
+		}
+		c.Err = e.engine.Commit(txn)
+		c.TxnOK = c.Err == nil
+	})
 }
 
 // sessionTxn: StartSession, StartTransaction, body, Commit | Abort | End.
